@@ -1,17 +1,17 @@
 """Source of truth for MANIFEST.json (tools/mkmanifest.py turns it into JSON)."""
 
 ENGINES = [
-    {"name": "PROG", "path": "mc/prog.py, mc/proggen.py", "serves_properties": ["C01", "C04", "C05", "C06", "C14"],
+    {"name": "PROG", "path": "mc/prog.py, mc/proggen.py", "serves_properties": ["C01", "C03", "C04", "C05", "C06", "C10", "C14"],
      "kind_free_text": "bounded-exhaustive enumerator of component programs (AST + printer) executed on the real library and compared with a reference interpreter"},
     {"name": "SCHED", "path": "mc/sched.py", "serves_properties": ["C07"],
      "kind_free_text": "stateless exploration of real threads: baton scheduler, sys.settrace scheduling points from an AST scan of the working tree, cooperative locks, iterative preemption bounding, DFS sharded over first deviations"},
-    {"name": "ENUM", "path": "checks/c11.py, checks/c16.py, checks/c17.py, checks/c20.py", "serves_properties": ["C11", "C16", "C17", "C20"],
+    {"name": "ENUM", "path": "checks/c11.py, checks/c16.py, checks/c17.py, checks/c20.py", "serves_properties": ["C02", "C08", "C10", "C11", "C13", "C16", "C17", "C20"],
      "kind_free_text": "bounded-exhaustive input enumeration (full products / all sequences to a length) executed on the real code and compared with a reference function or a stock twin (Python's call binding, importlib, a suffix/pattern predicate, a recursive union model)"},
-    {"name": "SEQ", "path": "mc/seq.py", "serves_properties": ["C16", "C18"],
+    {"name": "SEQ", "path": "mc/seq.py", "serves_properties": ["C15", "C16", "C18", "C19"],
      "kind_free_text": "explicit-state BFS over operation histories on the real objects, canonical-state merging, reference model per step, unmerged cross-check"},
 ]
 
-FIX_COMMITS = ["9971f7b (C01)", "a8b3a60 (C05)", "d2c67e0 (C06)", "af8a5f7 (C06)", "34517b9 (C07)", "64d9058 (C07)", "904ce30 (C11)", "3cabaaa (C11)", "16cad7c (C17)", "914c67b (C17)", "3644eb2 (C20)", "62e89ba (C20)", "4c86fa4 (C04)", "7c927a3 (C16)", "3b28f4c (C16)", "63b789b (C16)"]
+FIX_COMMITS = ["9971f7b (C01)", "a8b3a60 (C05)", "d2c67e0 (C06)", "af8a5f7 (C06)", "34517b9 (C07)", "64d9058 (C07)", "904ce30 (C11)", "3cabaaa (C11)", "16cad7c (C17)", "914c67b (C17)", "3644eb2 (C20)", "62e89ba (C20)", "4c86fa4 (C04)", "7c927a3 (C16)", "3b28f4c (C16)", "63b789b (C16)", "fe25d7c (C08)", "befe4b1 (C08)", "06b04f5 (C08)", "fbc7b08 (C13)", "7b7750f (C13)", "0b2d530 (C13)", "3717859 (C19)", "1162db7 (C19)", "1ef4601 (C02)", "41fcc59 (C02)", "8eee2e6 (C02)", "f691a46 (C03)"]
 
 _PENDING = "check not built yet in this session (build order: DESIGN.md section 6); it will be decided by the same bounded-exhaustive technique"
 
@@ -24,6 +24,24 @@ CHECKS = {
                 "is rendered by the real library in both context_behavior modes, through the component tag, the dynamic component and Component.render(slots=...), "
                 "and output / error class / is_filled probes are compared with a denotational reference interpreter on every program.",
         "note": "bounded program size; variables scope-independent by construction (scoping is C03); slots only inside component templates; acyclic component graphs; reference interpreter encodes the statement's lexical slot resolution",
+    },
+    "C02": {
+        "engine": "ENUM",
+        "design_ref": "DESIGN.md 2.4, 3/C02",
+        "technique": "grammar-based exhaustive enumeration of argument lists x layouts on the real tag machinery vs reference evaluator + layout metamorphism",
+        "text": "All argument lists from the documented grammar up to a node/arity bound (227 leaves x 33 frames; values <= 4/5 nodes to depth 3; all 1-2/3-argument lists; 523 documented-invalid forms) are printed in 10-36 "
+                "whitespace/quote/trailing-comma/end-tag layouts and executed through {% component %} and a BaseNode tag against two contexts; received (args, kwargs, flags) are compared type-exactly with a reference evaluator "
+                "(stock FilterExpression for leaves, Python semantics for containers, spreads and aggregation) and across layouts; invalid forms must raise TemplateSyntaxError.",
+        "note": "bounded by value alphabet, size and depth; leaves judged by stock Django default filters; corners the statement leaves open are skipped or accepted under either reading (duplicate keywords, escape sequences, filters on nested-template strings, whitespace around `=`); receivers are *args/**kwargs (binding is C11)",
+    },
+    "C03": {
+        "engine": "PROG",
+        "design_ref": "DESIGN.md 2.1, 3/C03",
+        "technique": "exhaustive enumeration of a scoping family (all name-collision assignments x structure) on the real renderer vs reference scoping model, 2-run non-interference",
+        "text": "The unit page -> outer component -> inner component with a slot is enumerated over all assignments of the names {x,y} to 8 binding roles (page variable, with around either tag, outer/inner data, for/with between tag and fill, "
+                "slot data, with around the slot) x kwargs passing x only flags x body kinds x data=/default= aliases x placement depth, each under two page contexts; every position reads every name and each value encodes the role that bound it. "
+                "Outputs are compared with the reference interpreter that implements the statement's isolated/django rules; the caller's Context must be unchanged.",
+        "note": "six corners the statement leaves open are kept out of the generator (DESIGN C03 i-vi); two names, one slot, nesting depth 2-3",
     },
     "C04": {
         "engine": "PROG",
@@ -64,6 +82,24 @@ CHECKS = {
                 "(quick k=2 on the provide-error and LRU scenarios, k=1 elsewhere; thorough k=3 / k=2); each thread's result must equal its solo result, no deadlock, no residue, LRU list/dict invariant.",
         "note": "CPython+GIL, preemption between source lines of the scheduling set only (under-approximation: every explored schedule is realisable); 2 threads; library locks become cooperative locks via a wrapper installed before import",
     },
+    "C08": {
+        "engine": "ENUM",
+        "design_ref": "DESIGN.md 2.4, 3/C08",
+        "technique": "bounded-exhaustive token documents on the real render_dependencies/middleware vs token-level reference implementation",
+        "text": "Every document of <= 4 (thorough <= 5) tokens over a 24-token hostile alphabet (text incl. non-ASCII, look-alikes, </head>/</body> variants, real placeholders with 0-2 id attributes, real marker comments) x str/bytes/SafeString/latin-1 x document/fragment "
+                "is run through the real render_dependencies and compared byte-for-byte and type-exactly with a reference of the documented insertion rule; the middleware is run over all <= 2-token bodies x content types x streaming x sync/async.",
+        "note": "tag strings are taken from the implementation (their content is C04); </HEAD> / </BODY> accepted under either case reading; tag strings containing end-tag or placeholder look-alikes are not generated",
+    },
+    "C10": {
+        "engine": "ENUM + PROG",
+        "design_ref": "DESIGN.md 2.4, 3/C10",
+        "category": "translation_validation",
+        "technique": "differential exhaustive enumeration: stock template families in an unpatched twin process vs the patched process; split (extends/include) programs vs the flattened program",
+        "text": "(a) every stock template family with <= N nodes (single / extends+block+block.super / include with-only; if/for/with/filter/autoescape/firstof/cycle, simple_tag with quoted argument, inclusion_tag, ill-formed members) is executed in a "
+                "process that never imports django_components and in the patched process, both engine.debug values x 3 contexts; token streams, outputs, exception class/message/debug line and the Context state after render must be identical. "
+                "(b) see checks/c10b.py when present in evidence.",
+        "note": "(a) excludes the two documented lexer differences (`%}` inside quotes, newline inside a tag); Django 5.1 as installed",
+    },
     "C11": {
         "engine": "ENUM",
         "design_ref": "DESIGN.md 2.4, 3/C11",
@@ -72,6 +108,14 @@ CHECKS = {
                 "argument sequence up to length 4-5 over matching, duplicate, unknown, non-identifier, keyword and spread-produced keys. Each pair runs on the real tag machinery on both validation paths "
                 "(and through @template_tag + Template, and with the built-in tags' signatures); acceptance and complete bindings are compared with Python executing the literal equivalent call on the same function.",
         "note": "integer literal values; list spread after a plain keyword accepted under either reading; **kwargs order and messages not compared; fallback path reached via a callable without __code__; thorough covers L=5 only for signatures <= 3 params",
+    },
+    "C13": {
+        "engine": "ENUM",
+        "design_ref": "DESIGN.md 2.4, 3/C13",
+        "technique": "bounded-exhaustive inputs on the real tags vs merge / escape-once / refuse-or-emit models + html.parser round trip",
+        "text": "All (defaults, attrs, <= 2 extras) assignments over 17 values for 5 keys, all writing forms, key pairs and hostile names are rendered through {% html_attrs %} and parsed back with html.parser; "
+                "all slot-content kinds x re-pass chains x escape flags, and all js/css strings of <= 3 (thorough <= 4) end-tag look-alike tokens, are checked against the merge, escape-exactly-once and refuse-or-emit models.",
+        "note": "values reach the tag via context variables; appends involving None/True/False, the safe flag after an append and attribute order are agnostic; html.parser is the HTML parser of record",
     },
     "C14": {
         "engine": "PROG",
@@ -82,6 +126,15 @@ CHECKS = {
                 "set of data-djc-id-* attributes must equal the set of instances for which the reference interpreter says it is a root; ids distinct and equal to Component.id. "
                 "Depth families chain(d)/nest(d) up to d=200 (quick) / 2000 (thorough).",
         "note": "html.parser trusted; attribute insertion itself happens in the external djc_core_html_parser wheel (not part of the repository)",
+    },
+    "C15": {
+        "engine": "SEQ",
+        "design_ref": "DESIGN.md 2.3, 3/C15",
+        "technique": "explicit-state BFS to fixpoint over real ComponentRegistry/Library histories vs dict model + tag-table invariant",
+        "text": "All register/unregister/get/all/clear histories of every length over 3-4 names x 3 classes are covered by BFS to a fixpoint on real registries for the default, shorthand and a tag-sharing custom formatter, on empty/pre-loaded, "
+                "unprotected/protected private libraries, with one registry, two independent registries and two registries sharing a library (36 configurations); each transition is compared with a dict model and the library tag table; "
+                "all unmerged sequences <= 4 (quick) / <= 5 (thorough) cross-check the state merging; every reachable single-registry state is also probed through a compiled template. One open known finding (shared library).",
+        "note": "single-threaded; formatter and protection fixed per history; shared-library clause read over all registries attached to the library; classes with unique import paths",
     },
     "C16": {
         "engine": "ENUM",
@@ -110,6 +163,16 @@ CHECKS = {
                 "cached_template() is searched the same way for cache sizes 0,1,2,128 and component renders for all sequences <= 4.",
         "note": "single-threaded; alphabet of 4 keys/2 values (code is key/value agnostic); CPython 3.12 / Django 5.1 as installed",
     },
+}
+
+CHECKS["C19"] = {
+    "engine": "SEQ",
+    "design_ref": "DESIGN.md 2.3, 2.4, 3/C19",
+    "technique": "explicit-state BFS over render / pre-render / eviction histories with every announced URL fetched through django.test.Client + exhaustive request product",
+    "text": "All histories of every length over 21 operations (document/fragment renders of 5 classes via Component.render, template + render_dependencies and the pre-rendered-slot flow; clear, single-key eviction, cache re-creation) are covered "
+            "by BFS to a fixpoint for the built-in and a configured media cache; each announced URL must return 200 with that class's code and content type, every other known URL 404 or the right code; unmerged sequences <= 3 / <= 4 cross-check the merging; "
+            "100 asset-shape renders and a 7000-request product of hashes x kinds x input hashes x methods decide the 404/405/never-5xx clause.",
+    "note": "single-threaded; locmem caches; evictions only between operations; classes alive with unique identifier names; a raising render is not judged; vars-file bodies not asserted",
 }
 
 CHECKS["C20"] = {
